@@ -244,6 +244,12 @@ class SyncRun:
     def dump(self, mbx: str, norw: bool = False) -> None:
         """glass-box dump of a mailbox: uids, permanent flags, stored recent bits
         (norw: no session has the mailbox selected read-write)"""
+        if self.backend != 'dict':
+            from . import maildirsrv
+            uids, flags, rbits = maildirsrv.dump(self.w, mbx)
+            self.events.append({'e': 'dump', 'mbx': mbx, 'uids': uids, 'norw': norw,
+                                'flags': flags, 'rbits': rbits})
+            return
         mset = self.w.mailbox_set()
         data = mset._inbox if mbx.upper() == 'INBOX' else mset._set.get(mbx)
         uids = sorted(data._messages) if data is not None else []
